@@ -368,12 +368,30 @@ Definition mkey (m : msg) : bytes * N := (m_id m, m_mt m).
 Definition key_eqb (k k' : bytes * N) : bool := bytes_eqb (fst k) (fst k') && (snd k =? snd k').
 Definition keyb (k : bytes * N) (f : frame) : bool := key_eqb k (fkey f).
 
+(* the three parts of the per-message check; [l] = the frames carrying the
+   message's key, in stream order *)
+Definition msg_pseudo_okb (m : msg) (l : list frame) : bool :=
+  list_eqb frame_eqb (firstn (List.length (m_pseudo m)) l) (hframes (m_id m) (m_mt m) (m_pseudo m)).
+
+Definition msg_headers_okb (m : msg) (l : list frame) : bool :=
+  perm_b frame_eqb
+    (firstn (List.length (m_hdrs m)) (skipn (List.length (m_pseudo m)) l))
+    (hframes (m_id m) (m_mt m) (m_hdrs m)).
+
+Definition msg_data_okb (m : msg) (l : list frame) : bool :=
+  list_eqb frame_eqb
+    (skipn (List.length (m_hdrs m)) (skipn (List.length (m_pseudo m)) l))
+    (body_log (m_id m) (m_mt m) (m_reads m)).
+
 Definition msg_okb (m : msg) (l : list frame) : bool :=
-  let np := List.length (m_pseudo m) in
-  let nh := List.length (m_hdrs m) in
-  list_eqb frame_eqb (firstn np l) (hframes (m_id m) (m_mt m) (m_pseudo m))
-  && perm_b frame_eqb (firstn nh (skipn np l)) (hframes (m_id m) (m_mt m) (m_hdrs m))
-  && list_eqb frame_eqb (skipn nh (skipn np l)) (body_log (m_id m) (m_mt m) (m_reads m)).
+  msg_pseudo_okb m l && msg_headers_okb m l && msg_data_okb m l.
+
+(* precondition of demultiplexing: pairwise distinct (wire id, type) *)
+Fixpoint keys_distinctb (ks : list (bytes * N)) : bool :=
+  match ks with
+  | [] => true
+  | k :: t => negb (existsb (key_eqb k) t) && keys_distinctb t
+  end.
 
 (* whole stream: every frame belongs to a logged message, and per
    (id, type) the frames are those of that message *)
